@@ -48,6 +48,7 @@ def handle (op payload : String) : Option String :=
   match op with
   | "lr.parse" => handleParse payload
   | "lr.validate" => handleValidate payload   -- Lox/LR/DrvValidate.lean
+  | "lr.errfree" => handleErrFree payload     -- Lox/LR/DrvValidate.lean
   | _ => none
 
 end Lox.LR
